@@ -479,25 +479,12 @@ class RegexCompiler:
         capture_groups = self._find_capture_groups(body)
 
         if need_advance_check:
-            reg = self._allocate_register()
-            loop_start = self._current_offset()
-
+            # The first iteration is mandatory and may match empty: ECMAScript
+            # rejects an empty iteration only once the minimum has been reached.
+            # So x+ is compiled as x x* (the star carries the advance check).
             self._emit_capture_reset(capture_groups)
-            self._emit(Op.SET_POS, reg)
             self._compile_node(body)
-            # CHECK_ADVANCE before SPLIT so that if body took a non-advancing path
-            # (like empty alternative), we backtrack to body alternatives first,
-            # not directly to the loop exit
-            self._emit(Op.CHECK_ADVANCE, reg)
-
-            if greedy:
-                split_idx = self._emit(Op.SPLIT_FIRST, 0)
-                self._emit(Op.JUMP, loop_start)
-                self._patch(split_idx, Op.SPLIT_FIRST, self._current_offset())
-            else:
-                split_idx = self._emit(Op.SPLIT_NEXT, 0)
-                self._emit(Op.JUMP, loop_start)
-                self._patch(split_idx, Op.SPLIT_NEXT, self._current_offset())
+            self._compile_star(body, greedy, need_advance_check)
         else:
             loop_start = self._current_offset()
             self._emit_capture_reset(capture_groups)
